@@ -145,6 +145,7 @@ class Trace:
         self.task_done_seen = set()
         self.write_count = 0
         self.driver_task = None
+        self.audits = []          # (step index, state, armed timers, pending task ids) at quiescent points
         loop.before_callback = self._before
         loop.after_callback = self._after
         loop.set_exception_handler(self._loop_exc)
@@ -457,10 +458,17 @@ async def run_scenario(loop, scenario, **kw):
     tr.driver_task = asyncio.current_task()
     tr.net.on_transport = tr.hook_transport
 
+    def audit():
+        from aioesphomeapi.connection import ConnectionState as S
+        timers = [name for _, name in loop.armed_timers()]
+        pending = sorted(tid for t, tid in tr.tasks.items() if not t.done())
+        tr.audits.append((len(tr.steps), tr.conn.connection_state is S.CLOSED, timers, pending))
+
     with tr.net.patched():
         for a in scenario:
             if a[0] == "drain":
                 await simnet.drain(loop)
+                audit()
             elif a[0] == "adv_next":
                 nt = loop.next_timer()
                 due_pending = any(isinstance(h, asyncio.TimerHandle) and not h._cancelled for h in loop._ready)
@@ -473,6 +481,7 @@ async def run_scenario(loop, scenario, **kw):
                 tr.cur_action_label = tr.act(a)
                 await asyncio.sleep(0)
         await simnet.drain(loop)
+        audit()
     loop.before_callback = loop.after_callback = None
     # cancel leftovers quietly
     return tr
